@@ -1,4 +1,183 @@
 import BpModel.All
+import BpProofs.RtFlat
+import BpProofs.Props.C06
+/-
+  C01 — binary round trip: parse(bytes(m)) reproduces m for every message value.
+
+  FULL STATEMENT (the target; kept visible):
+    for every well-formed schema S, class c and well-typed reachable value m of c,
+      dumpVal S m = .ok bs  →  ∃ m', parse S c bs = .ok m' ∧ m' ≈ m (same values up to
+      unset-vs-default, same oneof selection, same None-ness, same nested presence)
+      ∧ dumpVal S m' = .ok bs.
+
+  PROVED HERE:
+    * record level, every scalar kind (RtScalar / RtPacked): one record of a scalar field
+      decodes to the value it was made from; a packed payload decodes to exactly its list;
+      packed chunks concatenate;
+    * message level (`roundtrip_flat_partial`): the full statement for ALL schemas and ALL
+      values of the flat fragment — any number of fields of the 16 scalar types, each
+      singular, proto3-optional, a oneof member (any number of groups) or repeated (packed
+      or not), plus arbitrary unknown fields — by induction over the slot list with the
+      decoder-state invariant `GI`;
+    * the assembly lemma `roundtrip_of_steps` is generic: ANY field kind for which "decoding
+      the bytes of the slot restores the slot" (`SlotStep`) is shown joins the theorem.
+  MISSING (named, not proved): `SlotStep` for message-typed slots — nested / recursive
+    messages, maps, Timestamp / Duration, wrappers (their payloads are themselves flat
+    messages, so the missing step is the induction over nesting depth). Those are covered
+    by the differential correspondence and the oracle of this check.
+-/
 namespace Bp.C01
-theorem placeholder : True := trivial
+open Bp Gen
+
+/-- **record level**: a scalar record decodes to the value it was made from, consuming
+    exactly its own bytes, whatever follows -/
+theorem scalar_record (S : Schema) (rec : Loader) (f : FieldD) (v : Val) (se : Bool)
+    (out rest : Bytes) (hnum : numOk f.num = true) (hty : isScalarType f.ty = true)
+    (hv : scalarOk f.ty v = true) (hlen : out.length < 2 ^ 64)
+    (h : serializeScalar S f.num f.ty v se Option.none = .ok out) (hne : out ≠ []) :
+    ∃ pf, loadField (out ++ rest) = .ok (pf, rest) ∧ pf.num = f.num ∧ pf.raw = out
+      ∧ wireFits f pf.wt = true ∧ decodeValue S rec f pf = .ok v :=
+  scalar_record_roundtrip S rec f v se out rest hnum hty hv hlen h hne
+
+/-- every well-typed scalar value can be encoded -/
+theorem scalar_encodable (S : Schema) (num : Nat) (t : PType) (v : Val) (se : Bool)
+    (hty : isScalarType t = true) (hv : scalarOk t v = true) :
+    ∃ out, serializeScalar S num t v se Option.none = .ok out := serializeScalar_ok S num t v se hty hv
+
+/-- **packed lists**: the payload decodes to exactly the list it was made from -/
+theorem packed_list (S : Schema) (t : PType) (xs : List Val) (buf : Bytes)
+    (ht : isPacked t = true) (hx : ∀ x ∈ xs, scalarOk t x = true) (h : prepPacked S t xs = .ok buf) :
+    decodePacked t buf = .ok xs := packed_roundtrip S t xs buf ht hx h
+
+/-- a selected, set, well-typed scalar member always emits at least its tag -/
+theorem selected_emits (S : Schema) (f : FieldD) (v : Val) (b : Bytes) (_hff : FlatField f)
+    (hg : f.group.isSome = true) (hv : scalarOk f.ty v = true)
+    (h : dumpSlot S f false true v = .ok b) : b ≠ [] := by
+  obtain ⟨hpl, _⟩ := scalarOk_plain f.ty v hv
+  obtain ⟨wt, rest, _, e⟩ := C06.explicit_emitted S f true v b hpl (Or.inr (Or.inl ⟨hg, rfl⟩)) h
+  intro hc; rw [hc] at e
+  have := encNat_ne_nil (f.num * 8 + wt)
+  cases hh : encNat (f.num * 8 + wt) with
+  | nil => exact this hh
+  | cons a as => rw [hh] at e; simp at e
+
+/-- **message level, flat fragment** — see the header for what "flat" covers.
+    Hypotheses, all decidable: distinct in-range field numbers; oneof group indices in
+    range and members not `optional`; the oneof invariant of C07 (unselected members are
+    unset, the selection points into its group, a selected member holds a value); every
+    slot well-typed for its field (`flatSlotOk`: in-range ints, float32 patterns a Python
+    float can hold, valid UTF-8); unknown fields are raw records the class does not know;
+    the encoding is shorter than 2^64 bytes. -/
+theorem roundtrip_flat_partial (S : Schema) (c : Nat) (d : MsgD) (hd : S[c]? = some d)
+    (sl : List Val) (ow : Bool) (unk : Bytes) (cur : List (Option Nat))
+    (hdist : NumsDistinct d.fields) (hflat : ∀ f ∈ d.fields, FlatField f)
+    (hlen : sl.length = d.fields.length) (hcurlen : cur.length = d.nGroups)
+    (hwfg : WfGroups d.fields d.nGroups)
+    (hgrpopt : ∀ f ∈ d.fields, f.group.isSome = true → f.optional = false)
+    (hcurok : ∀ g i, cur.getD g Option.none = some i → ∃ f, d.fields[i]? = some f ∧ f.group = some g)
+    (hinv : ∀ i f g, d.fields[i]? = some f → f.group = some g → cur.getD g Option.none ≠ some i → sl.getD i .ph = Val.ph)
+    (hselset : ∀ g i, cur.getD g Option.none = some i → sl.getD i .ph ≠ Val.ph)
+    (hty : ∀ (i : Nat) (f : FieldD) (v : Val), d.fields[i]? = some f → sl[i]? = some v → flatSlotOk f v = true)
+    (hunk : UnkOk d unk)
+    (bs : Bytes) (hdump : dumpVal S (.msg c sl ow unk cur) = .ok bs) (hbl : bs.length < 2 ^ 64) :
+    ∃ sl', parse S c bs = .ok (.msg c sl' true unk cur)
+      ∧ sl'.length = sl.length
+      ∧ (∀ j f, d.fields[j]? = some f →
+          sl'.getD j .ph = sl.getD j .ph
+          ∨ (sl'.getD j .ph = freshVal f
+              ∧ dumpSlot S f (hidden f j cur) (selectedInGroup f j cur) (sl.getD j .ph) = .ok []))
+      ∧ dumpVal S (.msg c sl' true unk cur) = .ok bs := by
+  -- facts about hidden / selected for members and non-members
+  have hsel_grp : ∀ i f, d.fields[i]? = some f → selectedInGroup f i cur = true →
+      ∃ g, f.group = some g ∧ cur.getD g Option.none = some i := by
+    intro i f _ hs
+    unfold selectedInGroup at hs
+    cases hg : f.group with
+    | none => rw [hg] at hs; simp at hs
+    | some g => rw [hg] at hs; exact ⟨g, rfl, by simpa using hs⟩
+  have hshape : MsgShape S d sl cur := by
+    refine ⟨hlen, hcurlen, hwfg, hcurok, hgrpopt, hinv, ?_⟩
+    intro i f b hf hs hb
+    obtain ⟨g, hg, hcg⟩ := hsel_grp i f hf hs
+    have hh : hidden f i cur = false := by unfold hidden; rw [hg]; simp only; rw [hcg]; simp
+    rw [hh] at hb
+    have hil : i < sl.length := by
+      rw [hlen]; by_contra hc; rw [List.getElem?_eq_none (by omega)] at hf; simp at hf
+    have hvi : sl[i]? = some (sl.getD i .ph) := by
+      rw [List.getD_eq_getElem?_getD, List.getElem?_eq_getElem hil]; rfl
+    have hok := hty i f _ hf hvi
+    have hne := hselset g i hcg
+    have hgo := hgrpopt f (List.mem_of_getElem? hf) (by simp [hg])
+    have hff := hflat f (List.mem_of_getElem? hf)
+    -- the value of a selected member is a well-typed scalar
+    have hsc : scalarOk f.ty (sl.getD i .ph) = true := by
+      cases hv : sl.getD i .ph with
+      | ph => exact absurd hv hne
+      | none => rw [hv] at hok; simp [flatSlotOk, hgo] at hok
+      | list xs =>
+        rw [hv] at hok; simp [flatSlotOk] at hok
+        have := (hff.rep hok.1).2; rw [hg] at this; simp at this
+      | _ => rw [hv] at hok; simp [flatSlotOk] at hok; first | exact hok.2 | (simp [scalarOk] at hok)
+    exact selected_emits S f _ b hff (by simp [hg]) hsc hb
+  apply roundtrip_of_steps S c d hd sl ow unk cur hshape hunk ?_ bs hdump hbl
+  intro rec k f v hf hv
+  have hff := hflat f (List.mem_of_getElem? hf)
+  have hok := hty k f v hf hv
+  have hvD : sl.getD k .ph = v := by simp [List.getD_eq_getElem?_getD, hv]
+  cases v with
+  | ph =>
+    -- an unset slot emits nothing
+    intro st b hb _ _ _ _ _
+    have hbe : b = [] := by
+      rw [dumpSlot] at hb
+      by_cases hh : hidden f k cur = true
+      · rw [if_pos hh] at hb; injection hb with hb; exact hb.symm
+      · rw [if_neg hh] at hb
+        have hh' : hidden f k cur = false := by simpa using hh
+        cases hg : f.group with
+        | some g =>
+          have := selected_of_not_hidden f k g cur hg hh'
+          exact absurd hvD (hselset g k this)
+        | none =>
+          have hs : selectedInGroup f k cur = false := by unfold selectedInGroup; rw [hg]
+          have ho : f.optional = false := by simpa [flatSlotOk] using hok
+          rw [hs] at hb
+          unfold dumpDefault at hb
+          simp only [hg, ho, Option.isSome_none, Bool.or_self, Bool.false_eq_true] at hb
+          cases hk : f.defKind <;> rw [hk] at hb <;> simp at hb <;> first | exact hb.symm | exact hb
+    exact ⟨[], fun _ h => by simp at h, by simp [joinRaw, hbe], by rw [if_pos hbe]; rfl⟩
+  | none =>
+    intro st b hb _ _ _ _ _
+    rw [dumpSlot] at hb; injection hb with hb
+    exact ⟨[], fun _ h => by simp at h, by simp [joinRaw, ← hb], by rw [if_pos hb.symm]; rfl⟩
+  | list xs =>
+    simp [flatSlotOk] at hok
+    obtain ⟨_, hg⟩ := hff.rep hok.1
+    have hh : hidden f k cur = false := by unfold hidden; rw [hg]
+    have hs : selectedInGroup f k cur = false := by unfold selectedInGroup; rw [hg]
+    rw [hh]
+    exact slotStep_repeated S rec d k f _ xs hdist hf hff hok.1 (fun x hx => hok.2 x hx) hs
+  | int i => simp [flatSlotOk] at hok; exact slotStep_scalar S rec d k f _ _ _ hdist hf hff hok.1 hok.2
+  | bool b => simp [flatSlotOk] at hok; exact slotStep_scalar S rec d k f _ _ _ hdist hf hff hok.1 hok.2
+  | f32 b => simp [flatSlotOk] at hok; exact slotStep_scalar S rec d k f _ _ _ hdist hf hff hok.1 hok.2
+  | f64 b => simp [flatSlotOk] at hok; exact slotStep_scalar S rec d k f _ _ _ hdist hf hff hok.1 hok.2
+  | str s => simp [flatSlotOk] at hok; exact slotStep_scalar S rec d k f _ _ _ hdist hf hff hok.1 hok.2
+  | byt s => simp [flatSlotOk] at hok; exact slotStep_scalar S rec d k f _ _ _ hdist hf hff hok.1 hok.2
+  | ts us => simp [flatSlotOk, scalarOk] at hok
+  | dur us => simp [flatSlotOk, scalarOk] at hok
+  | dict ks vs => simp [flatSlotOk, scalarOk] at hok
+  | msg c' sl' ow' unk' cur' => simp [flatSlotOk, scalarOk] at hok
+
+/-! non-vacuity: a class with an int32, an optional string, a two-member oneof and a packed
+    repeated sint64; the value below meets every hypothesis (evaluated by `decide`) -/
+def SX : Schema := [{ fields := [{ name := "i", num := 1, ty := .int32 },
+                                  { name := "s", num := 2, ty := .string, optional := true },
+                                  { name := "a", num := 3, ty := .bool, group := some 0 },
+                                  { name := "b", num := 4, ty := .bytes, group := some 0 },
+                                  { name := "r", num := 5, ty := .sint64, repeated := true }], nGroups := 1 }]
+def mX : Val := .msg 0 [.int (-7), .str [], .ph, .byt [], .list [.int (-1), .int 150]] true [] [some 3]
+example : dumpVal SX mX = .ok [8, 249, 255, 255, 255, 255, 255, 255, 255, 255, 1, 18, 0, 34, 0, 42, 3, 1, 172, 2] := by decide
+example : (parse SX 0 [8, 249, 255, 255, 255, 255, 255, 255, 255, 255, 1, 18, 0, 34, 0, 42, 3, 1, 172, 2]).bind (dumpVal SX)
+    = .ok [8, 249, 255, 255, 255, 255, 255, 255, 255, 255, 1, 18, 0, 34, 0, 42, 3, 1, 172, 2] := by decide
+
 end Bp.C01
